@@ -90,6 +90,9 @@ def pkey(pl):
 
 # ----------------------------------------------------------------------------------------------
 
+SCRAMBLE_LOCALS = os.environ.get('NOIR_SCRAMBLE_LOCALS') == '1'
+
+
 class Fn:
     def __init__(self, raw, crate):
         self.raw = raw
@@ -112,6 +115,11 @@ class Fn:
         self.is_unsafe = raw.get('unsafe', False)
         self.sig = raw.get('sig', '')
         self.vars = raw.get('vars', [])
+        if SCRAMBLE_LOCALS:
+            # self-test of the rules (NOIR_SCRAMBLE_LOCALS=1): every local / parameter gets another name, as if a maintainer had
+            # renamed them consistently; no rule may depend on such a name
+            import hashlib
+            self.vars = [[n if n == 'self' else 'v' + hashlib.md5(n.encode()).hexdigest()[:6], pl] for n, pl in self.vars]
         self._succ = None
         self._pred = None
         self._dom = None
